@@ -150,6 +150,7 @@ type Machine struct {
 	lastSnapDiff  string
 	panicMsg      string
 	kvConflicts    int
+	floatCache     map[string]*Term
 	encBlobs       []*Blob
 	lastHexID      string
 	reflCalls      int
